@@ -186,30 +186,39 @@ func (g *G) Model(o ModelOpts) *rm.Model {
 	}
 	var leaf func(self relDecl, res *[]rm.Restriction, depth int) *rm.Rewrite
 	leaf = func(self relDecl, res *[]rm.Restriction, depth int) *rm.Rewrite {
+		// direct assignment appears at most once per relation (as the DSL would produce it); a further
+		// "direct" draw becomes a computed userset of a sibling relation
+		direct := func() *rm.Rewrite {
+			if len(*res) == 0 {
+				*res = mkRestrictions(self)
+				return &rm.Rewrite{Kind: rm.This}
+			}
+			var sib []string
+			for _, r := range relsOf[self.typ] {
+				if r != self.rel {
+					sib = append(sib, r)
+				}
+			}
+			if len(sib) == 0 {
+				return &rm.Rewrite{Kind: rm.This}
+			}
+			return &rm.Rewrite{Kind: rm.Computed, Relation: Pick(g, sib)}
+		}
 		x := g.Intn(100)
 		switch {
 		case x < 45:
-			if len(*res) == 0 {
-				*res = mkRestrictions(self)
-			}
-			return &rm.Rewrite{Kind: rm.This}
+			return direct()
 		case x < 70:
 			others := relsOf[self.typ]
 			r := Pick(g, others)
 			if r == self.rel {
-				if len(*res) == 0 {
-					*res = mkRestrictions(self)
-				}
-				return &rm.Rewrite{Kind: rm.This}
+				return direct()
 			}
 			return &rm.Rewrite{Kind: rm.Computed, Relation: r}
 		default:
 			ts, ok := tuplesetOf[self.typ]
 			if !ok {
-				if len(*res) == 0 {
-					*res = mkRestrictions(self)
-				}
-				return &rm.Rewrite{Kind: rm.This}
+				return direct()
 			}
 			// computed relation from some target type's relation list (chosen later to exist)
 			return &rm.Rewrite{Kind: rm.TTU, Tupleset: ts, Relation: "?"}
